@@ -89,3 +89,21 @@ Proof.
   - reflexivity.
   - exfalso. exact (select_first_total t S).
 Qed.
+
+(* ---- the pubkey form parameter of the role paths ---- *)
+Theorem param_pipeline_signed p values k : param_pipeline p values = Signed k ->
+  validate k = true /\ exists kv r, values = PDer (Some kv) :: r /\ snd kv = k.
+Proof.
+  unfold param_pipeline. destruct values as [|v r]; [discriminate|]. destruct v as [| |ko]; try discriminate.
+  intros P. split; [exact (pipeline_of_strong p ko ko k (fun _ => eq_refl) P)|].
+  unfold pipeline_of, pipeline2 in P. cbn [validated signed] in P.
+  destruct ko as [kv|]; [|discriminate]. destruct (validate (snd kv)); [|discriminate].
+  exists kv, r. split; [reflexivity|]. destruct (parses_twice p); inversion P; reflexivity.
+Qed.
+
+Theorem param_pipeline_weak_is_client_error p values :
+  (forall kv r, values = PDer (Some kv) :: r -> validate (snd kv) = false) -> param_pipeline p values = ClientError.
+Proof.
+  intros H. unfold param_pipeline. destruct values as [|v r]; [reflexivity|]. destruct v as [| |ko]; try reflexivity.
+  apply pipeline_of_weak_is_client_error. intros kv E. subst ko. exact (H kv r eq_refl).
+Qed.
